@@ -894,6 +894,23 @@ func (st *State) Assume(c *Cond, tv bool) {
 		}
 	case CPred:
 		st.Preds[c.Key] = tv
+		// an error that equals a sentinel is not nil (package-level error variables are never nil: rule S2 of C18)
+		if tv && strings.HasPrefix(c.Key, "eq:") {
+			if parts := strings.SplitN(c.Key[3:], "=", 2); len(parts) == 2 {
+				sym := ""
+				switch {
+				case strings.HasPrefix(parts[0], "@") && !strings.HasPrefix(parts[1], "@"):
+					sym = parts[1]
+				case strings.HasPrefix(parts[1], "@") && !strings.HasPrefix(parts[0], "@"):
+					sym = parts[0]
+				}
+				if sym != "" {
+					if _, known := st.Preds["nil:"+sym]; !known {
+						st.Preds["nil:"+sym] = false
+					}
+				}
+			}
+		}
 	case CNot:
 		st.Assume(c.X, !tv)
 	case CAnd:
